@@ -302,7 +302,12 @@ pub fn enc_err(e: &reval::Error) -> String {
         UnknownRef(n) => format!("(err ref {})", hex(n)),
         InvalidSymbol(n) => format!("(err sym {})", hex(n)),
         UnknownUserFunction(n) => format!("(err fn {})", hex(n)),
-        UserFunctionError { function, error } => format!("(err userfn {} {})", hex(function), hex(&error.to_string())),
+        UserFunctionError { function, error } => {
+            // the harness's functions fail with a `HarnessFailure`: the reported error must still be that object
+            let msg = error.to_string();
+            let original = !msg.starts_with("fail") || error.downcast_ref::<crate::evalrun::HarnessFailure>().map(|h| h.0 == msg).unwrap_or(false);
+            format!("(err userfn {} {}{})", hex(function), hex(&msg), if original { "" } else { " not-the-original-error-object" })
+        }
         NumericOverflow(_) => "(err numoverflow)".into(),
         UnexpectedValueType(v, _) => format!("(err unexpected {})", enc_value(v)),
         ValueSerializationError(m) => format!("(err ser {})", hex(m)),
